@@ -204,6 +204,13 @@ class ContractMixin:
             sv.facts(st, self)
             f = {"str_init": init_seg, "str_last": last_seg, "str_first": first_seg}[name]
             return mk_str(f(args[0].t, args[1].t))
+        if name == "inside":
+            from . import pathmodel
+            st.axiom(pathmodel.inside(args[0], args[0]).t)
+            return pathmodel.inside(args[0], args[1])
+        if name == "confined":
+            from . import pathmodel
+            return mk_bool(pathmodel.confined(args[0].t))
         if name == "cast":
             return Val(TRef(z3.simplify(args[1].t).as_string()), args[0].terms)
         if name == "const":
